@@ -124,6 +124,7 @@ where
         infinite_source: false,
         horizon: 0,
         no_retire_check: false,
+        warmup: vec![],
         horizon_delta: 0,
         prefix_spec: false,
         sync_check: false,
@@ -455,6 +456,7 @@ pub fn native_subjects(prop: &str) -> Vec<Subject> {
             infinite_source: false,
             horizon: 0,
             no_retire_check: false,
+            warmup: vec![],
             horizon_delta: 0,
             prefix_spec: false,
             sync_check: false,
@@ -525,13 +527,14 @@ pub fn native_subjects(prop: &str) -> Vec<Subject> {
             ub(&want),
         ));
         let dec_want: Vec<f32> = data.iter().map(|x| ((x * 32767.0) as i16) as f32 / 32767.0).collect();
-        v.push(with_samples(
-            s11("AuDecode", "header+9 samples".into(), 4, want.clone(), vec![], native_starts(CU8, CF), 1, |r| {
-                let (b, o) = AuDecode::new(r, 8000);
-                (bx(b), o)
-            }),
-            fb(&dec_want),
-        ));
+        let mut dec = s11("AuDecode", "header+9 samples".into(), 4, want.clone(), vec![], native_starts(CU8, CF), 1, |r| {
+            let (b, o) = AuDecode::new(r, 8000);
+            (bx(b), o)
+        });
+        // The 28-byte header takes three calls; the horizon cannot get past
+        // it from the initial state. Enumerate from the data state too.
+        dec.warmup = vec![Act::Feed(0, 28), Act::Nop, Act::Nop];
+        v.push(with_samples(dec, fb(&dec_want)));
     }
     // HDLC deframer: two frames with a shared flag, and noise before.
     {
@@ -611,6 +614,7 @@ pub fn native_subjects(prop: &str) -> Vec<Subject> {
             infinite_source: false,
             horizon: 0,
             no_retire_check: false,
+            warmup: vec![],
             horizon_delta: 0,
             prefix_spec: false,
             sync_check: false,
@@ -657,6 +661,7 @@ pub fn native_subjects(prop: &str) -> Vec<Subject> {
             infinite_source: false,
             horizon: 0,
             no_retire_check: false,
+            warmup: vec![],
             horizon_delta: 0,
             prefix_spec: false,
             sync_check: false,
@@ -695,6 +700,7 @@ pub fn native_subjects(prop: &str) -> Vec<Subject> {
             infinite_source: false,
             horizon: 0,
             no_retire_check: false,
+            warmup: vec![],
             horizon_delta: 0,
             prefix_spec: false,
             sync_check: false,
@@ -735,6 +741,7 @@ pub fn native_subjects(prop: &str) -> Vec<Subject> {
             infinite_source: false,
             horizon: 0,
             no_retire_check: false,
+            warmup: vec![],
             horizon_delta: 0,
             prefix_spec: false,
             sync_check: false,
@@ -760,6 +767,7 @@ pub fn endless_sources() -> Vec<Subject> {
         infinite_source: true,
         horizon: 4,
         no_retire_check: true,
+        warmup: vec![],
         horizon_delta: 0,
         prefix_spec: true,
         sync_check: false,
